@@ -104,13 +104,12 @@ Proof.
   - cbn [fold_left] in H. destruct (commit_one fixed efb now (t, q) r) as [t1 q1] eqn:E1.
     apply (IH t1 q1 t' q'); [|exact H].
     unfold commit_one in E1. destruct (t_fresh_id t) as [t0 id].
-    destruct (let '(t'0, c) := t_cas t0 (r_rev r) (with_status (r_obj r) (if r_ok r then Done else Error) id) in
-              match c with
-              | CasOk => (t'0, true) | CasNotFound => (t'0, false)
-              | CasMismatch cur _ => if fallback_ok efb cur r then (t_insert t'0 (with_status cur (if r_ok r then Done else Error) id), true) else (t'0, false)
-              end) as [t2 wrote].
-    destruct (negb (r_ok r) && wrote); injection E1 as X1 X2; subst q1; [|exact D].
-    apply del_logged_add; [exact D|discriminate].
+    destruct (t_cas t0 (r_rev r) (with_status (r_obj r) (if r_ok r then Done else Error) id)) as [t'0 c].
+    assert (X : q1 = q \/ exists o rv og, q1 = r_add q o rv og false now).
+    { destruct c as [| |cur cr]; [| |destruct (fallback_ok efb cur r)];
+        match type of E1 with (if ?b then _ else _) = _ => destruct b end; injection E1 as X1 X2; subst q1;
+        first [left; reflexivity | right; eexists; eexists; eexists; reflexivity]. }
+    destruct X as [X|[o [rv [og X]]]]; subst q1; [exact D|apply del_logged_add; [exact D|discriminate]].
 Qed.
 
 Lemma batch_collect_dl : forall chs rs e q dels upds nrec lastrev q' dels' upds' nrec' lastrev',
